@@ -1157,6 +1157,9 @@ def module_source(imp, ops, sibling=None):
     return u"\n".join(lines) + u"\n"
 
 
+_OWN_CLASSES = {}
+
+
 def check_modules(res, case):
     from behave import matchers
     from behave import step_registry
@@ -1189,7 +1192,20 @@ def check_modules(res, case):
             res.label("modules:sibling-import")
         # -- what an environment.py would do before the step modules are loaded
         matchers.register_type(**CONVERTERS)
-        if case["env"]:
+        own_class = None
+        if case["env"] and case.get("env_custom"):
+            # environment.py registers its own matcher class (a subclass of a built-in one, behaviour unchanged)
+            # under its own name and makes it the default: documented extension point
+            factory = matchers.get_step_matcher_factory()
+            base_class = factory.step_matcher_class_mapping[case["env"]]
+            own_class = _OWN_CLASSES.get(case["env"])
+            if own_class is None:
+                # (one class object per process: the factory keeps registered classes for the life of the process)
+                own_class = _OWN_CLASSES[case["env"]] = type("Own%s" % base_class.__name__, (base_class,), {})
+            matchers.register_step_matcher_class("own_" + case["env"], own_class)
+            matchers.use_step_matcher("own_" + case["env"])
+            res.label("modules:own-matcher-class-as-default")
+        elif case["env"]:
             matchers.use_step_matcher(case["env"])
         try:
             load_step_modules([steps_dir])
@@ -1207,6 +1223,12 @@ def check_modules(res, case):
                      "default is %r" % (current, default))
         switched = False
         relied = False
+        imported_before = set()
+        under_default = []      # (step type, index among the definitions of that type) made while the default is in force
+        if own_class is not None and matchers.get_step_matcher_factory().current_matcher is not own_class:
+            res.fail("C11.modules.own-default-lost", "after load_step_modules the current matcher class is %s, the "
+                     "environment selected %s" % (matchers.get_step_matcher_factory().current_matcher.__name__,
+                                                  own_class.__name__))
         for i, (_name, _imp, ops, _looks) in enumerate(files):
             model.kind = default
             first = True
@@ -1216,9 +1238,15 @@ def check_modules(res, case):
                 model.kind = import_kinds(case, default)[i]
                 if model.kind != default:
                     first = False
+                j_imported = imports[i]
+                if j_imported not in imported_before and any("use" in it for it in case["files"][j_imported]["items"]):
+                    first = False       # an explicit selection (even of the default's own kind) is in force
+                imported_before.add(j_imported)
             for op in ops:
                 if op["op"] == "reg" and first and switched:
                     relied = True
+                if op["op"] == "reg" and first:
+                    under_default.append((op["st"], len(model.defs[op["st"]])))
                 if op["op"] == "use":
                     first = False
                     if op.get("legacy"):
@@ -1236,6 +1264,14 @@ def check_modules(res, case):
                 res.fail("C11.modules.definitions-lost", "@%s: %d definitions registered, %d written"
                          % (t, len(registry.steps[t]), len(model.defs[t])))
                 return
+        if own_class is not None:
+            for stype_, index in under_default:
+                made_by = type(registry.steps[stype_][index])
+                if made_by is not own_class:
+                    res.fail("C11.modules.own-default-lost", "definition #%d of @%s was written while the default matcher "
+                             "is in force, which is the environment's %s; it was built by %s"
+                             % (index, stype_, own_class.__name__, made_by.__name__))
+                    break
         rp = Replayer(res, registry=registry, model=model)
         for _name, _imp, ops, looks in files:
             for op in ops:
@@ -1430,7 +1466,10 @@ def modules_case_st(draw):
         if xi is not None:
             f["xi"] = xi
         files.append(f)
-    return {"kind": "modules", "env": env, "files": files, "cwd": draw(st.sampled_from([0, 0, 1, 2, 3]))}
+    case = {"kind": "modules", "env": env, "files": files, "cwd": draw(st.sampled_from([0, 0, 1, 2, 3]))}
+    if env and draw(st.booleans()):
+        case["env_custom"] = True
+    return case
 
 
 def reregister_cases():
@@ -1585,7 +1624,7 @@ def required_labels(tier):
                "reg:added", "reg:ignored", "reg:ambiguous", "hist:nontrivial",
                "modules:default-after-switch", "modules:env-default", "modules:legacy-step_matcher-alias", "modules:sibling-import",
                "modules:cwd-1", "modules:cwd-2", "modules:cwd-3", "converr:first-candidate-refuses:another-would-match",
-               "converr:KeyError", "converr:ValueError", "converr:Custom"])
+               "converr:KeyError", "converr:ValueError", "converr:Custom", "modules:own-matcher-class-as-default"])
 
 
 KNOWN_PREDICATES = {}
@@ -1593,3 +1632,4 @@ KNOWN_PREDICATES = {}
 
 RULE = RULE + " " + ('Step modules may import an earlier sibling module (its definitions are re-registrations of the very same function and pattern) and are loaded from foreign working directories; earlier lookup results are kept and must not change when later lookups (also of the same definition) are made.')
 RULE = RULE + " " + ('A complete table of conversion refusals: a custom type whose converter raises (six exception classes) for a value its pattern matched, next to a catch-all definition in every order / step-type placement, with and without a later literal definition of the refused text: the step stays bound to the first matching definition (as a reported error), never falls through or becomes undefined, nothing escapes lookup or registration.')
+RULE = RULE + " " + ('Step modules: half of the environments with an own default register their own matcher class (subclass of a built-in one, under its own name) and make it the default: it stays the default for every later module.')
